@@ -7,6 +7,8 @@ INVARIANT BalancedAtEnd
 INVARIANT TopLevelBalanced
 INVARIANT ActivationsMatch
 INVARIANT ScopesMatch
+INVARIANT HeapOK
 PROPERTY FrameRule
+PROPERTY ProducedOnce
 PROPERTY StepsGrow
 CHECK_DEADLOCK FALSE
